@@ -49,7 +49,13 @@ impl Property for C03 {
         cfg.interleave = true;
         // (half of the cases: signals of any width - the driver's values are what they are,
         // also when they do not fit the signal they are reported for)
-        cfg.widths = if Ch::new(&s[1]).chance(1, 2) { Widths::Mixed } else { Widths::All64 };
+        let mut wch = Ch::new(&s[1]);
+        cfg.widths = if wch.chance(1, 2) { Widths::Mixed } else { Widths::All64 };
+        // one case in twenty-five: 16-65 more one-bit outputs (answers of more than 64 entries, in any order)
+        if wch.chance(1, 25) {
+            cfg.bus = true;
+            out.class("many-more-outputs");
+        }
         cfg.odd_names = true;
         cfg.omit_cols = true;
         cfg.permute_header = true;
